@@ -47,16 +47,29 @@ Theorem C17_list_run_refines : forall V tg s ops,
 Proof. exact run_refines. Qed.
 Print Assumptions C17_list_run_refines.
 
-Theorem C17_dict_refines : forall VK VV tg s op,
-  daccepted VK VV s op = true -> proxy_dstep VK VV tg s op = spec_dstep VK VV tg s op.
-Proof. exact dict_refines. Qed.
-Print Assumptions C17_dict_refines.
+(* For dicts the full statement
+     forall VK VV tg s op, daccepted VK VV s op = true -> proxy_dstep VK VV tg s op = spec_dstep VK VV tg s op
+   is FALSE of the faithful model (open finding F51: DictProxy.update is not positional-only, the
+   keyword form cannot carry the keys "self" / "iterable"): *)
+Theorem C17_dict_refines_refuted :
+  exists VK VV tg s op,
+    daccepted VK VV s op = true /\ proxy_dstep VK VV tg s op <> spec_dstep VK VV tg s op.
+Proof. exact dict_refines_refuted. Qed.
+Print Assumptions C17_dict_refines_refuted.
 
-Theorem C17_dict_run_refines : forall VK VV tg s ops,
+(* ... and holds everywhere outside the boolean region kw_clash (= known_F51) *)
+Theorem C17_dict_refines_partial : forall VK VV tg s op,
+  kw_clash op = false ->
+  daccepted VK VV s op = true -> proxy_dstep VK VV tg s op = spec_dstep VK VV tg s op.
+Proof. exact dict_refines_partial. Qed.
+Print Assumptions C17_dict_refines_partial.
+
+Theorem C17_dict_run_refines_partial : forall VK VV tg s ops,
+  forallb (fun op => negb (kw_clash op)) ops = true ->
   daccepted_run VK VV tg s ops = true ->
   run (proxy_dstep VK VV tg) s ops = run (spec_dstep VK VV tg) s ops.
-Proof. exact drun_refines. Qed.
-Print Assumptions C17_dict_run_refines.
+Proof. exact drun_refines_partial. Qed.
+Print Assumptions C17_dict_run_refines_partial.
 
 (* ---- validated: every held item is a fixed point of the validator, after any history, whether the
    operations were accepted or refused (also the container lemma of C01) ---- *)
